@@ -480,7 +480,10 @@ def extra(ctx, uberjob):
             if self.fail_mtime:
                 raise OSError("cannot stat")
             return self.t
-    for shape in ("unstored zero-argument call", "registered literal", "registered literal, failing modified time"):
+    far = [("None", None), ("tomorrow (naive local)", _dt.datetime.now() + _dt.timedelta(days=1)), ("datetime.max", _dt.datetime.max),
+           ("tomorrow (aware UTC)", _dt.datetime.now(_dt.timezone.utc) + _dt.timedelta(days=1)), ("a past time", _dt.datetime(2001, 1, 1))]
+    for shape, (fresh_name, fresh_time) in [(sh, far[0]) for sh in ("unstored zero-argument call", "registered literal", "registered literal, failing modified time")] + \
+            [("unstored zero-argument call", f) for f in far[1:]]:
         for workers in (1, 3):
             plan, reg = uberjob.Plan(), uberjob.Registry()
             with plan.scope("prep"):
@@ -498,13 +501,13 @@ def extra(ctx, uberjob):
             reg.add(mid, MemH())
             prog = RecProgress()
             try:
-                res = uberjob.run(plan, registry=reg, output=top, progress=prog, max_workers=workers)
+                res = uberjob.run(plan, registry=reg, output=top, progress=prog, max_workers=workers, fresh_time=fresh_time)
                 oc = "returned"
             except BaseException as e:      # noqa
                 oc = "raised %s" % type(e).__name__
             seq = prog.made[0].seq if prog.made else []
             d = py_wf(seq)
-            ctx.case(("c15-registry-shapes", shape, workers))
+            ctx.case(("c15-registry-shapes", shape, workers, fresh_name))
             problems = [d] if d else []
             if oc == "returned":
                 tot, fin, ran = collections.Counter(), collections.Counter(), collections.Counter()
@@ -523,8 +526,8 @@ def extra(ctx, uberjob):
             elif not shape.endswith("failing modified time"):
                 problems.append("run %s" % oc)
             if problems:
-                ctx.fail("registry-shapes:account", "registry run over a plan with %s (max_workers=%d): %s" % (shape, workers, "; ".join(problems)),
-                         {"shape": shape, "max_workers": workers, "outcome": oc, "notifications": [repr(e) for e in seq[:40]]})
+                ctx.fail("registry-shapes:account", "registry run over a plan with %s (max_workers=%d, fresh_time=%s): %s" % (shape, workers, fresh_name, "; ".join(problems)),
+                         {"shape": shape, "max_workers": workers, "fresh_time": fresh_name, "outcome": oc, "notifications": [repr(e) for e in seq[:40]]})
     # (g) an observer is an ordinary object: it may define __len__ / __bool__ (a recorder that reports how many events it holds)
     # and be falsy - it still receives the whole account
     for falsy_by in ("__bool__", "__len__"):
